@@ -1,11 +1,102 @@
-/- BDS 4,4 — crates/rs1090/src/decode/bds/bds44.rs   (STUB: not modelled yet) -/
+/-
+BDS 4,4 meteorological routine air report — crates/rs1090/src/decode/bds/bds44.rs
+
+`MeteorologicalRoutineAirReport` (56 bits, `#[serde(tag = "bds", rename = "44")]`), no
+`skip_serializing_if`: absent options print as `null`.
+
+  4     figure_of_merit                                            serde(skip)
+  1+9   wind_speed      read_wind_speed   Option<u16>  (> 250 ⇒ Err)
+  9     wind_direction  read_wind_direction(speed)  Option<f64> = value·180/256
+                        (no status bit of its own: `None` iff wind_speed is `None`, and then a
+                        non-zero value is an error)
+  1+10  temperature     read_temperature  f64 (sign bit + 10 bits, LSB 0.25, outside [-80,60] ⇒ Err)
+  1+11  pressure        read_pressure     Option<u16>: status set ⇒ *always* Err
+  1+2   turbulence      read_turbulence   Option<Turbulence>
+  1+6   humidity        read_humidity     Option<f64> = value·100/64
+
+All f64 computations here are exact (integers times 0.25, or integer·k / 2^n), so the rational
+values and the range test are the float ones.
+-/
 import Rs1090.Model.Decode.Common
 namespace Rs1090.Model.Bds44
 open Rs1090 Rs1090.Model
 
-/-- STUB -/
-def modelled : Bool := false
+def modelled : Bool := true
 
-def read : R SerFields := R.fail .other
+/-- `read_wind_speed`: knots -/
+def windSpeed (status : Bool) (value : Nat) : Outcome (Option Nat) :=
+  if !status then
+    (if value != 0 then .err .assertion else .ok none)
+  else if value > 250 then .err .assertion
+  else .ok (some value)
+
+/-- `read_wind_direction`: numerator over 256 (degrees = value·180/256) -/
+def windDirection (speed : Option Nat) (value : Nat) : Outcome (Option Nat) :=
+  if speed.isNone then
+    (if value != 0 then .err .assertion else .ok none)
+  else .ok (some (value * 180))
+
+/-- signed quarter-degrees: `(value - 1024) * 0.25` when the sign bit is set, else `value * 0.25` -/
+def temperatureQ (sign value : Nat) : Int :=
+  if sign == 1 then (value : Int) - 1024 else (value : Int)
+
+/-- `read_temperature`: quarter-degrees Celsius; `!(-80. ..=60.).contains(&temp)` ⇒ Err -/
+def temperature (sign value : Nat) : Outcome Int :=
+  let q := temperatureQ sign value
+  if q < -320 || q > 240 then .err .assertion else .ok q
+
+/-- `read_pressure`: "Pressure never seen before, message deemed invalid" whenever status is set -/
+def pressure (status : Bool) (value : Nat) : Outcome (Option Nat) :=
+  if !status then
+    (if value != 0 then .err .assertion else .ok none)
+  else .err .assertion
+
+/-- serde name of the unit variant of `Turbulence` (the `_ => None` arm is unreachable on 2 bits) -/
+def turbulenceName (value : Nat) : Option Json :=
+  match value with
+  | 0 => some (.lit (key! "Nil"))
+  | 1 => some (.lit (key! "Light"))
+  | 2 => some (.lit (key! "Moderate"))
+  | 3 => some (.lit (key! "Severe"))
+  | _ => none
+
+def turbulence (status : Bool) (value : Nat) : Outcome (Option Json) :=
+  if !status then
+    (if value != 0 then .err .assertion else .ok none)
+  else .ok (turbulenceName value)
+
+/-- `read_humidity`: numerator over 64 (percent = value·100/64) -/
+def humidity (status : Bool) (value : Nat) : Outcome (Option Nat) :=
+  if !status then
+    (if value != 0 then .err .assertion else .ok none)
+  else .ok (some (value * 100))
+
+def read : R SerFields := do
+  let _fom ← bits 4
+  let wsStatus ← flag
+  let wsValue ← bits 9
+  let ws ← R.lift (windSpeed wsStatus wsValue)
+  let wdValue ← bits 9
+  let wd ← R.lift (windDirection ws wdValue)
+  let tSign ← bits 1
+  let tValue ← bits 10
+  let temp ← R.lift (temperature tSign tValue)
+  let pStatus ← flag
+  let pValue ← bits 11
+  let pres ← R.lift (pressure pStatus pValue)
+  let tuStatus ← flag
+  let tuValue ← bits 2
+  let turb ← R.lift (turbulence tuStatus tuValue)
+  let hStatus ← flag
+  let hValue ← bits 6
+  let hum ← R.lift (humidity hStatus hValue)
+  pure <| .ok [
+    fld (key! "bds") (.lit (key! "44")),
+    fldOpt (key! "wind_speed") (ws.map jnat),
+    fldOpt (key! "wind_direction") (wd.map fun n => jrat n 256),
+    fld (key! "temperature") (jrat temp 4),
+    fldOpt (key! "pressure") (pres.map jnat),
+    fldOpt (key! "turbulence") turb,
+    fldOpt (key! "humidity") (hum.map fun n => jrat n 64) ]
 
 end Rs1090.Model.Bds44
